@@ -85,6 +85,8 @@ TRAJ = {t.name: t for t in [
     Traj("takeoff_mixed", 51.99, 4.37, 60, 160, receiver=(52.30, 4.80), surface_until=12.0, taxi_kt=25, kinds=(0, 1, "vel", "id"), gaps=(0.4, 4, 9.6)),
     Traj("takeoff_mixed_norecv", 51.99, 4.37, 60, 160, receiver=None, surface_until=12.0, taxi_kt=25, kinds=(0, 1, "vel", "id"), gaps=(0.4, 4, 9.6)),
     Traj("landing_mixed", 52.30, 4.70, 240, 140, receiver=(52.30, 4.80), surface_from=12.0, taxi_kt=40, kinds=(0, 1, "vel", "id"), gaps=(0.4, 4, 9.6)),
+    # the aircraft stays listed through a long stretch without positions (identification only) and then reports again
+    Traj("north_600kt_position_outage", 10.0, 5.0, 0, 600, kinds=(0, 1, "alive"), gaps=(0.4, 4, 9.6)),
     Traj("landing_mixed_norecv", 52.30, 4.70, 240, 140, receiver=None, surface_from=12.0, taxi_kt=40, kinds=(0, 1, "vel", "id"), gaps=(0.4, 4, 9.6)),
 ]}
 ICAO1 = 0x4840D6
@@ -105,6 +107,22 @@ def pos_msg(tr, t, oe):
     return F.es(me, ICAO1, 5, 17)
 
 
+def feed_event(d, tr, now, oe, gap):
+    """apply one event to the table; returns the new time.  'alive' = the aircraft keeps sending identification
+    messages every 50 s for 1500 s (it stays listed, but no position arrives while it travels 250 NM at 600 kt)."""
+    if oe == "alive":
+        t = now
+        for _ in range(30):
+            t += 50.0
+            d.process_raw([t], [pos_msg(tr, t, "id")], [], [], tnow=t)
+        t += gap
+        d.process_raw([t], [pos_msg(tr, t, "id")], [], [], tnow=t)
+        return t
+    t = now + gap
+    d.process_raw([t], [pos_msg(tr, t, oe)], [], [], tnow=t)
+    return t
+
+
 def canon(acs):
     return repr(sorted(((str(k), sorted((str(a), repr(b)) for a, b in v.items())) for k, v in acs.items())))
 
@@ -118,11 +136,10 @@ def run_positions(name, prefix, depth, acc):
         d, now, _ = st
         for oe in tr.kinds:
             for gap in (tr.gaps or GAPS1):
-                t = now + gap
-                msg = pos_msg(tr, t, oe)
                 d2 = copy.deepcopy(d)
+                t = now + gap
                 try:
-                    d2.process_raw([t], [msg], [], [], tnow=t)
+                    t = feed_event(d2, tr, now, oe, gap)
                     exc = None
                 except Exception as e:  # noqa: BLE001
                     exc = type(e).__name__
@@ -153,9 +170,8 @@ def run_positions(name, prefix, depth, acc):
     st = (d0, 0.0, None)
     trace = []
     for oe, gap in prefix:
-        t = st[1] + gap
         d2 = copy.deepcopy(st[0])
-        d2.process_raw([t], [pos_msg(tr, t, oe)], [], [], tnow=t)
+        t = feed_event(d2, tr, st[1], oe, gap)
         st = (d2, t, None)
         trace.append((oe, gap))
         v = inv(st)
@@ -171,9 +187,8 @@ def replay_positions(name, events):
     now = 0.0
     key_icao = "%06X" % ICAO1
     for oe, gap in events:
-        now += gap
         try:
-            d.process_raw([now], [pos_msg(tr, now, oe)], [], [], tnow=now)
+            now = feed_event(d, tr, now, oe, gap)
         except Exception as e:  # noqa: BLE001
             return "table:process_raw_raises:%s" % type(e).__name__
         ac = d.acs.get(key_icao)
